@@ -20,6 +20,11 @@ def handle (ws : List String) : String :=
     match decStr new, decSpans sp, tks.mapM decTok with
     | some new, some sp, some ts => encToks (replaceAll new ts sp)
     | _, _, _ => "bad-op"
+  | [["replacet", tpl, sp], tks] =>
+    -- template pieces separated by ',' : `G` = the whole match, otherwise an encoded literal
+    match (tpl.splitOn ",").mapM (fun w => if w == "G" then some none else (decStr w).map some), decSpans sp, tks.mapM decTok with
+    | some tpl, some sp, some ts => encToks (replaceAllT tpl ts sp)
+    | _, _, _ => "bad-op"
   | _ => "bad-op"
 
 end Odf.Drv.Replace
